@@ -357,6 +357,10 @@ def rd(m, **kw):
     return dict(m=m, **kw)
 
 
+READS = [rd("compute_eps"), rd("compute_ess"), rd("compute_expectation"), rd("extract_result"), rd("eval_unnorm_posterior", inside=True),
+         rd("eval_posterior", inside=True)]
+
+
 def pinned():
     """one deterministic history per finding (reproduced on every run, whatever the seed)"""
     return [
@@ -376,6 +380,7 @@ def pinned():
           pin="nothing solved: compute_eps / fit_posterior(eps_filter='auto') IndexError from np.quantile([])"),
         S([dict(m="fit_posterior", n1=3, seed=4, bo=False, k="all", fit=False), smp(2), rd("compute_eps"),
            dict(m="fit_posterior", n1=2, seed=5, bo=False, auto=True, q=0.5, fit=False), smp(2)], pin="fit_posterior twice"),
+        S([rd("compute_eps"), solve(2, 7)] + READS + [est()] + READS + [smp(2)] + READS, pin="every read-only method at every stage"),
         S([est(), smp(2), rd("compute_ess"), rd("compute_expectation"), rd("eval_unnorm_posterior"), rd("eval_posterior"), rd("compute_eps"),
            rd("extract_result")], pin="everything refused on a fresh object"),
     ]
@@ -422,7 +427,7 @@ def random_scenario(rnd, i):
 
 def scenarios(ctx):
     rnd = random.Random(ctx.seed * 7919 + 4242)
-    n = 15 if ctx.quick else 120
+    n = 18 if ctx.quick else 120
     out = pinned()
     out += [random_scenario(rnd, i) for i in range(max(0, n - len(out)))]
     # the histories that fork a process pool are recorded first (before the TLC threads exist)
@@ -668,6 +673,8 @@ def check_romc_pipeline(ctx, design=True):
     ctx.assumptions += ["n1 >= 1 (None and the empty list are not distinguished in the status lists)",
                         "TypeErrors that only numpy >= 2 raises are accepted both ways (the history must match the design with or without them)"]
     ctx.clauses_decided = CLAUSES_DESIGN + CLAUSES_TRACE
+    ctx.rule = ("RomcPipeline.tla: every public ROMC call = the composition of the transcribed private stages; refused iff its precondition "
+                "flag is unset; RomcPipeline_Trace.tla replays real call histories on the design state")
     ctx.clauses_not_decided = ["region geometry, line search, posterior values and weights (property C19)", "plotting methods, compute_divergence",
                                "a simulator that raises anything but ValueError in the middle of solve_problems"]
     ctx.notes.append("ROMC pipeline extension: %d histories (%d pinned), %d calls, %d refused, %d raised otherwise; user-level invariants violated "
